@@ -149,6 +149,27 @@ pub fn scenario(name: &str) -> Option<Box<dyn Scenario>> {
     }
 }
 
+/// rustls does not read during a handshake while it still has handshake
+/// bytes of its own to send (`wants_read()` is false), on either side.  With a
+/// client-to-server pipe smaller than the client's second flight (change
+/// cipher spec + Finished, about 80 bytes) and a server-to-client pipe smaller
+/// than the server's flight, both ends block in `write` for ever: a deadlock
+/// of two rustls peers over socket buffers no kernel offers (Linux's minimum
+/// is 2304 bytes), not a behaviour of dropshot.  Connections that speak TLS
+/// therefore get at least 320 bytes of client-to-server pipe; the
+/// server-to-client pipe, where the server meets back-pressure, is untouched.
+pub fn fit_tls(plan: &Plan) -> Plan {
+    let mut p = plan.clone();
+    if p.server.tls {
+        for c in p.conns.iter_mut() {
+            if matches!(c.kind, ConnKind::Tls | ConnKind::H2) && c.c2s.cap < 320 {
+                c.c2s.cap = 320;
+            }
+        }
+    }
+    p
+}
+
 /// Execute + judge + account.  `sweep` marks systematic fault-point runs.
 pub fn execute(
     scn: &dyn Scenario,
@@ -156,6 +177,8 @@ pub fn execute(
     sink: &mut Sink,
     sweep: bool,
 ) -> (Outcome, Vec<Violation>) {
+    let fitted = fit_tls(plan);
+    let plan = &fitted;
     if sink.emit_at == Some(sink.cur_sub) {
         println!("{}", serde_json::to_string(plan).unwrap());
         std::process::exit(0);
